@@ -166,6 +166,16 @@ func (p *Prog) Named(sp *ssa.Package, name string) *types.Named {
 			return n
 		}
 	}
+	// an unexported anchor type that was renamed
+	for actual, canon := range typeAlias {
+		if canon == name {
+			if t, ok := sp.Members[actual].(*ssa.Type); ok {
+				if n, ok := t.Type().(*types.Named); ok {
+					return n
+				}
+			}
+		}
+	}
 	return nil
 }
 
@@ -274,7 +284,7 @@ func FuncName(f *ssa.Function) string {
 			t = pt.Elem()
 		}
 		if n, ok := t.(*types.Named); ok {
-			return pkg + n.Obj().Name() + "." + name
+			return pkg + canonType(n.Obj().Name()) + "." + name
 		}
 	}
 	return pkg + name
